@@ -387,9 +387,12 @@ Lemma is_main_private_del r :
 Proof.
   unfold is_main_private. destruct r as [p k v]; simpl.
   destruct p as [|[] [|]]; try discriminate. destruct k as [| | |[]| |]; try discriminate.
-  intros H. apply existsb_exists in H. destruct H as (k' & Hin & Hk).
-  destruct (string_dec s k'); [subst|discriminate].
-  apply in_map_iff. exists k'. split; [reflexivity|exact Hin].
+  intros H. unfold main_private_keys. simpl.
+  repeat match type of H with
+         | (if string_dec ?a ?b then true else false) || _ = true =>
+           destruct (string_dec a b); [subst; simpl; auto 10|simpl in H]
+         end.
+  discriminate.
 Qed.
 
 Lemma convert_good sp al d :
